@@ -13,7 +13,7 @@ pub fn generate(tier: &str, rng: &mut Rng) -> Vec<Spec> {
     let thrs = ["0", "1/2", "1", "2", "3"];
     for n in 1..=(if t { 6 } else { 5 }) { for thr in thrs { for ty in ["f64", "f32"] {
         let alpha: &[i64] = if ty == "f64" { &[0, 1, 3, 50] } else { &[0, 2, 40] };
-        for xs in super::all_seqs(alpha, if t { 6 } else { if ty == "f64" { 5 } else { 4 } }) {
+        for xs in crate::util::all_seqs(alpha, if t { 6 } else { if ty == "f64" { 5 } else { 4 } }) {
             v.push(Spec::new("hampel").with("N", n).with("thr", thr).with("ty", ty).with("xs", join(&xs))); } } } }
     // samples just inside / just outside the pass bound thr*1.4826*MAD (a wrong scale factor or a >= for > shows here)
     for n in 2..=(if t { 6 } else { 4 }) { for thr in ["1/2", "1", "2", "3"] { for m in 1..=(if t { 60 } else { 30 }) {
